@@ -71,7 +71,7 @@ fn main() {
     quiet_panics();
     // wall-clock monitor: a call into the real code that spins without ever yielding cannot be
     // interrupted by the virtual clock or by poll budgets
-    start_watchdog_mode(&run.property, &run.verif_dir, 20, 24 << 30, matches!(property.as_str(), "C02" | "C05" | "C06" | "C10" | "C11"));
+    start_watchdog_mode(&run.property, &run.verif_dir, 20, 24 << 30, matches!(property.as_str(), "C02" | "C04" | "C05" | "C06" | "C10" | "C11"));
     let summary = match property.as_str() {
         "C01" => c0103::run(&run, false),
         "C02" => c02::run(&run),
